@@ -2,6 +2,7 @@
 from . import boot  # noqa: F401
 import importlib
 import json
+import os
 import signal
 import sys
 import time
@@ -37,6 +38,21 @@ def run_spec(mod, spec, timeout=120):
 
 def main():
     pid, inp, outp = sys.argv[1:4]
+    cov = None
+    if os.environ.get("VT_COVERAGE"):
+        import coverage
+        cov = coverage.Coverage(data_file=os.environ["VT_COVERAGE"], data_suffix=True,
+                                include=[os.path.join(boot.REPO_SRC, "wormhole", "*")], omit=["*/test/*"])
+        cov.start()
+    try:
+        _main(pid, inp, outp)
+    finally:
+        if cov is not None:
+            cov.stop()
+            cov.save()
+
+
+def _main(pid, inp, outp):
     mod = importlib.import_module("vt.props." + pid.lower())
     specs = json.load(open(inp))
     with open(outp, "w") as out:
